@@ -256,6 +256,16 @@ class Report:
             'call_sites_brought_to_canonical_argument_form': getattr(self.repo, 'canonicalised_calls', 0),
             'helpers_inlined_into_anchors': getattr(self.repo, 'flattened', {}),
             'lowered_or_rewritten_functions': getattr(self.repo, 'lowered', []),
+            'module_level_forms': {m_.name: {k_: v_ for k_, v_ in (('decorators_expanded', getattr(m_, 'decorators_expanded', None)),
+                                                                     ('branch_defined_closures_merged', getattr(m_, 'branch_defs_merged', None)),
+                                                                     ('log_only_statements_dropped', getattr(m_, 'logging_dropped', None)),
+                                                                     ('local_annotations_stripped', getattr(m_, 'local_annotations', None))) if v_}
+                                   for m_ in getattr(self.repo, 'modules', {}).values()
+                                   if getattr(m_, 'decorators_expanded', None) or getattr(m_, 'branch_defs_merged', None) or getattr(m_, 'logging_dropped', None)
+                                   or getattr(m_, 'local_annotations', None)},
+            'inherited_members_flattened': len(getattr(self.repo, 'inherited', []) or []),
+            'enum_values_folded': getattr(self.repo, 'enum_values', 0),
+            'copies_of_value_fields_removed': getattr(self.repo, 'value_copies', 0),
             'rule': 'functions absent from mmsa/pinned_names.json are inlined into their callers; calls to repository callables use positional-first arguments; iteration forms are brought to the form of the pinned code (DESIGN 9.1)',
         },
     }
